@@ -3,6 +3,10 @@
 set -eu
 n=$1; d=/tmp/$n
 git -C /repo worktree prune
+# refuse to wipe a scratch copy that holds rule files not (yet) merged into /verif (FORCE=1 overrides)
+if [ -d $d/checker/rules ] && [ "${FORCE:-0}" != 1 ]; then
+  if ! diff -rq $d/checker/rules /verif/checker/rules >/dev/null; then echo "REFUSED: $d/checker/rules differs from /verif/checker/rules (unmerged work?) - merge first or FORCE=1"; exit 1; fi
+fi
 [ -d $d/repo ] && git -C /repo worktree remove --force $d/repo || true
 rm -rf $d; mkdir -p $d
 cp -r /verif/checker $d/checker
